@@ -230,7 +230,7 @@ def run_impl(ctx, scripts, solvelog=None):
     env = {}
     if solvelog:
         env["XFEMM_VERIF_SOLVELOG"] = solvelog
-    rc, out, err = vlib.sh([exe], inp=txt, timeout=600, env=env)
+    rc, out, err = vlib.sh([exe], inp=txt, timeout=180, env=env)
     res, cur = {}, None
     for line in out.split("\n"):
         if line.startswith("case "):
